@@ -52,7 +52,8 @@ VALS = {
            '{"a":{"b":[]},"c":-0.5}', '[1 ,  "a:b"]']),
     "H": (["00", "1A2B", "FF", "0123456789ABCDEF", "DEADBEEF"], ["0000", "0A"]),
     "B": (["C,1,2", "c,-1,2", "S,300", "f,1.5,2.0", "I,70000", "i,-70000,3", "s,-300", "C,0", "I,4294967295",
-           "i,-2147483648,2147483647"],
+           "i,-2147483648,2147483647", "c,-128,127", "s,-1,128", "s,-129,5", "s,-32768,32767", "i,-1,32768", "i,-32769,0",
+           "C,255", "S,256", "S,65535", "I,65536", "i,-2147483648,5", "s,-128,128", "c,-128", "s,-32768", "i,-2147483648"],
           ["c,1,2", "i,1,2", "S,+5", "I,1", "f,1,2", "f,1.0e1,-.5", "C,007", "s,+3,-0", "s,1", "i,-1", "f,3",
            "S,255", "c,+127"]),
 }
@@ -342,7 +343,17 @@ def gen_gfa1(rng, max_lines, o):
                     found = _find_links(links, cur[0], cur[1], nxt[0], nxt[1])
                 if len({id(f[0]) for f in found}) > 1:
                     ambiguous = True
-                ovs.append(rng.choice(found)[1])
+                fl, ov = rng.choice(found)
+                if ov == "*" and len(found) == 1 and (fl.get("stated") or rng.random() < 0.35):
+                    # the path states an overlap for a link whose own overlap is `*` (the same one whenever the link is
+                    # used again, read in the direction of the step)
+                    if not fl.get("stated"):
+                        fl["stated"] = rng.choice(["3M", "2M1D", "4=", "1M1I1M", "12M"])
+                    direct = (fl["f"], fl["fo"], fl["t"], fl["to"]) == (cur[0], cur[1], nxt[0], nxt[1])
+                    # a hairpin / self link matches in both directions: keep the direct reading
+                    ov = fl["stated"] if direct else cig_compl(fl["stated"])
+                    feats.append("path-specifies-star-link")
+                ovs.append(ov)
                 walk.append(nxt)
                 cur = nxt
             if not ok and len(walk) == 1 and rng.random() < 0.5:
